@@ -29,6 +29,8 @@ assert os.path.exists(diff), diff
 assert demos, "no demo"
 demo = demos[0]
 wt = f"/tmp/val_{prop}{tag}_{n}"
+snap = f"/tmp/vsnap_{prop}{tag}_{n}"
+subprocess.run(["rsync", "-a", "--delete", "--exclude", "evidence", "--exclude", "replays", "--exclude", "seeded", "--exclude", ".git", "/verif/", snap + "/"], check=True)
 subprocess.run(["git", "-C", "/repo", "worktree", "remove", "--force", wt], capture_output=True)
 subprocess.run(["git", "-C", "/repo", "worktree", "add", "-q", "--detach", wt, "HEAD"], check=True)
 env = dict(os.environ, PYTHONPATH=wt, PYTHONDONTWRITEBYTECODE="1")
@@ -65,14 +67,11 @@ try:
     meta["baseline_ok"] = b.returncode == 0
     det = {}
     for c in checks:
-        r = subprocess.run(["./vcheck", c, "--tier", tier], cwd="/verif", env=dict(os.environ, VERIF_REPO=wt), capture_output=True, text=True, timeout=3600)
+        r = subprocess.run(["./vcheck", c, "--tier", tier], cwd=snap, env=dict(os.environ, VERIF_REPO=wt), capture_output=True, text=True, timeout=3600)
         sigs = [l.strip()[len("violation: "):][:200] for l in r.stdout.split("\n") if l.strip().startswith("violation:")]
         det[c] = {"exit": r.returncode, "violations": sigs[:6], "violation_line": "VIOLATION property=" in r.stdout}
         if r.returncode != 0 and not det[c]["violation_line"]:
             det[c]["crashed"] = (r.stdout + r.stderr)[-300:]
-        # the check rewrote evidence / replays for the patched tree: restore the committed ones
-    subprocess.run(["git", "checkout", "--", "evidence"], cwd="/verif")
-    subprocess.run(["git", "clean", "-fdq", "replays"], cwd="/verif")
     meta["checks"] = det
     meta["detected_by"] = [c for c, d in det.items() if d["exit"] == 1 and d["violation_line"]]
     valid = meta["baseline_ok"] and rc0 == 0 and rc1 != 0
@@ -92,3 +91,4 @@ try:
         json.dump(meta, open(out + "/meta.json", "w"), indent=1)
 finally:
     subprocess.run(["git", "-C", "/repo", "worktree", "remove", "--force", wt], capture_output=True)
+    shutil.rmtree(snap, ignore_errors=True)
